@@ -68,10 +68,21 @@ CUpd(m, e) ==
 \* written (cont); a seek may take up to the interpolator's four frames to be heard (C04), hence the
 \* window [-4, +1] around the expected frame.
 \* pend[k] = <<>> (nothing written since the last callback) or <<v>> (the last value written)
-HInit(init) == [ val |-> init, pend |-> [k \in DOMAIN init |-> <<>>] ]
+\* The key "m.dset" carries commands with a start delay, [x |-> value, dl |-> callbacks]: read at callback K, the value is
+\* in force from callback K + dl on - unless a later command has been read by then, which replaces it whole
+\* ("none is applied late": a superseded command never takes effect).  later[k] = <<>> or <<[x, n]>>, n callbacks to go.
+IsDl(k) == k = "m.dset"
+HInit(init) == [ val |-> init, pend |-> [k \in DOMAIN init |-> <<>>], later |-> [k \in DOMAIN init |-> <<>>] ]
+
+\* value in force after this callback / delayed command still waiting after it, for a delayed key
+DlVal(m, k) == IF m.pend[k] # <<>> THEN (IF m.pend[k][1].dl = 0 THEN m.pend[k][1].x ELSE m.val[k])
+               ELSE IF m.later[k] # <<>> /\ m.later[k][1].n = 1 THEN m.later[k][1].x ELSE m.val[k]
+DlLater(m, k) == IF m.pend[k] # <<>> THEN (IF m.pend[k][1].dl = 0 THEN <<>> ELSE <<[x |-> m.pend[k][1].x, n |-> m.pend[k][1].dl]>>)
+                 ELSE IF m.later[k] = <<>> \/ m.later[k][1].n = 1 THEN <<>> ELSE <<[m.later[k][1] EXCEPT !.n = @ - 1]>>
 
 Expected(m, e, k) ==
-  IF e.jump[k] = "no" THEN (IF m.pend[k] = <<>> THEN m.val[k] ELSE m.pend[k][1])
+  IF IsDl(k) THEN DlVal(m, k)
+  ELSE IF e.jump[k] = "no" THEN (IF m.pend[k] = <<>> THEN m.val[k] ELSE m.pend[k][1])
   ELSE IF m.pend[k] = <<>> THEN e.cont[k]
   ELSE IF m.pend[k][1].k = "abs" THEN m.pend[k][1].x + e.n - 1      \* seek_to(frame x)
   ELSE e.cont[k] + m.pend[k][1].x                                    \* seek_by(x frames)
@@ -87,7 +98,8 @@ HCheck(m, e) ==
          IF e.panicked THEN "no_panic"
          ELSE IF Wrong(m, e) = {} THEN ""
          ELSE LET k == CHOOSE x \in Wrong(m, e) : TRUE IN
-              IF m.pend[k] = <<>> THEN "no_effect_without_command_and_not_reapplied"
+              IF IsDl(k) /\ m.pend[k] = <<>> /\ m.later[k] # <<>> THEN "delayed_command_applied_when_due_unless_superseded"
+              ELSE IF m.pend[k] = <<>> THEN "no_effect_without_command_and_not_reapplied"
               ELSE "last_write_applied_at_next_callback"
     [] e.a = "panic" -> "no_panic"
     [] OTHER -> ""
@@ -95,7 +107,9 @@ HCheck(m, e) ==
 HUpd(m, e) ==
   CASE e.a = "w" -> [m EXCEPT !.pend[e.key] = <<e.v>>]
     [] e.a = "cb" -> [m EXCEPT !.val = [k \in DOMAIN m.val |->
-                                         IF m.pend[k] = <<>> \/ e.jump[k] # "no" THEN m.val[k] ELSE m.pend[k][1]],
+                                         IF IsDl(k) THEN DlVal(m, k)
+                                         ELSE IF m.pend[k] = <<>> \/ e.jump[k] # "no" THEN m.val[k] ELSE m.pend[k][1]],
+                               !.later = [k \in DOMAIN m.val |-> IF IsDl(k) THEN DlLater(m, k) ELSE <<>>],
                                !.pend = [k \in DOMAIN m.val |-> <<>>]]
     [] OTHER -> m
 =============================================================================
